@@ -8,6 +8,7 @@ package share
 import (
 	"crypto/cipher"
 	"fmt"
+	"go.dedis.ch/kyber/v4/xof/blake2xb"
 
 	"go.dedis.ch/kyber/v4"
 	kshare "go.dedis.ch/kyber/v4/share"
@@ -23,8 +24,9 @@ type Route struct {
 // (zeros afterwards): random.Int over a one-byte modulus then picks exactly
 // the scripted values.
 type scriptStream struct {
-	key []byte
-	pos int
+	key  []byte
+	pos  int
+	tail kyber.XOF
 }
 
 func (s *scriptStream) XORKeyStream(dst, src []byte) {
@@ -32,6 +34,15 @@ func (s *scriptStream) XORKeyStream(dst, src []byte) {
 		var k byte
 		if s.pos < len(s.key) {
 			k = s.key[s.pos]
+		} else {
+			// past the script: a deterministic non-constant key stream, so that a library loop that
+			// keeps drawing (e.g. rejection sampling that never accepts the scripted value) terminates
+			if s.tail == nil {
+				s.tail = blake2xb.New(append([]byte("script-tail"), s.key...))
+			}
+			var b [1]byte
+			s.tail.XORKeyStream(b[:], b[:])
+			k = b[0]
 		}
 		s.pos++
 		dst[i] = src[i] ^ k
